@@ -24,13 +24,13 @@ T = {
  "C05": ("exploration", "5/C05", "differential: Stream under generated chunkings vs one-shot decoder (proptest + libFuzzer)",
          "Differential check over generated inputs (valid, mutated, continued, random) x options x compositions into write calls with cuts targeted inside header, preamble and symbols (incl. a constructed ~18-byte symbol cut at every offset)."),
  "C06": ("fault_enumeration", "5/C06", "per-file exhaustive fault enumeration (bit flips, truncations, sealed field mutations) over generated files",
-         "Per generated file every single-bit flip, every truncation offset and the complete (field x value-class) table of sealed single-field mutations is enumerated; files themselves are sampled. Judged on both arithmetic profiles."),
+         "Per generated file every single-bit flip, every truncation offset and the complete (field x value-class) table of sealed single-field mutations (incl. bytes after the footer) is enumerated; files themselves are sampled. Judged on both arithmetic profiles."),
  "C07": ("exploration", "5/C07", "structured-mutation fuzzing (proptest + libFuzzer) with panic/alloc/termination oracles",
          "Search for panics, over-allocation and non-return over structured mutants, near-valid grammar files (one sealed field at an extreme) and random bytes at every decoding entry point, on overflow-checked and release builds; a request the system allocator refuses (>= 64 GiB) is reported instead of aborting; heap is measured with a counting allocator against 16 MiB + 64 KiB/input byte + 8 x sink bytes, and against 16 MiB + 4 x (true output) when the input is an unmutated valid stream (outputs beyond 1 MiB with announced dictionaries up to 4 GiB - 1); memory and termination are budgets, not decided."),
  "C08": ("exploration", "5/C08", "generated option/size/marker matrix + reference decoder oracle (proptest)",
          "Per generated program the full matrix of options x header size field x provided size x marker x trailing bytes x truncations is evaluated against the reference decoder's end rules."),
  "C09": ("exploration", "5/C09", "generated invalid symbol programs (one out-of-window copy) + must-reject / prefix oracle (proptest)",
-         "Valid program prefix + one copy op with an out-of-window distance at every position class relative to the wrap point, through both window implementations; must be rejected and delivered bytes must be a prefix of the valid prefix's output."),
+         "Valid program prefix + one copy op with an out-of-window distance at every position class relative to the wrap point, through both window implementations, plus references through rep0 right after an end marker (raw decoder continued without reset, bytes written to a Stream after the marker); must be rejected and delivered bytes must be a prefix of the valid prefix's output."),
  "C10": ("exploration", "5/C10", "generated limits around the needed window + differential vs unlimited run + counting allocator (proptest)",
          "Limits at need-1/need/need+1/dict+-1/extremes for generated streams, one-shot and streaming; verdict must flip exactly at need; heap growth bounded via a counting allocator."),
  "C11": ("exploration", "5/C11", "generated payload + trailing bytes, reader position oracle from the encoder's normalisation count (proptest)",
@@ -48,7 +48,7 @@ T = {
  "C17": ("exploration", "5/C17", "generated chunk sequences x framing-field mutation table + reference LZMA2 decoder (proptest)",
          "Valid chunk sequences with each framing field set to boundary-violating values at every chunk position; must be rejected by lzma2_decompress and xz_decompress."),
  "C18": ("exploration", "5/C18", "generated files re-sealed with each unsupported feature (proptest)",
-         "Valid files re-encoded with all 16 check ids, foreign filter ids, reserved bits (on both sides and on one side only), concatenated streams and stream padding; must be rejected."),
+         "Valid files re-encoded with all 16 check ids (SHA-256 with the real digest), foreign filter ids, reserved bits (on both sides and on one side only), concatenated streams and stream padding; must be rejected."),
 }
 
 checks = []
